@@ -566,7 +566,9 @@ func TestC02Env(t *testing.T) {
 			var out []string
 			switch kindOf(ev.Key) {
 			case "validate":
-				out = pick(ev.Menu, "refuse", "lost", "crash", "recv-restart")
+				// (an outage that begins at a poll: the polls fail until a later scan has seen a changed
+				// file; two lengths, so that either the poll or the new version's data request comes first)
+				out = pick(ev.Menu, "refuse", "lost", "crash", "recv-restart", "down:")
 			case "data":
 				out = pick(ev.Menu, "corrupt:", "lost", "crash", "recv-restart")
 			case "done", "remove", "persist", "sent":
@@ -587,7 +589,7 @@ func TestC02Env(t *testing.T) {
 			}
 			return append(out, pick(ev.Menu, "file:")...)
 		}, c02Check,
-		"at every Store.Remove and Cache.Done of the sender: the receiver durably holds a validated copy with the hash of the bytes being released, and a positive poll answer asked after the last acknowledgement precedes the release; plans with <= 2 deviations over: poll request refused / answer lost, a corrupted part (validation failure), lost data answer, sender crash at data / poll / done / delete / cache-write / sent-log actions, receiver restart, the source file rewritten (same size) or appended to at any sender action except at the very instant of the unlink, followed by a slow (45 s) comparison of a file with its cache entry; delete on and off, one-shot and daemon, with and without a minimum age of 60 s, with a delete-delay of 10 min; a receiver that delivered an older version of the same name in an earlier run")
+		"at every Store.Remove and Cache.Done of the sender: the receiver durably holds a validated copy with the hash of the bytes being released, and a positive poll answer asked after the last acknowledgement precedes the release; plans with <= 2 deviations over: poll request refused / answer lost / receiver unreachable for 35 or 60 s from a poll on, a corrupted part (validation failure), lost data answer, sender crash at data / poll / done / delete / cache-write / sent-log actions, receiver restart, the source file rewritten (same size) or appended to at any sender action except at the very instant of the unlink, followed by a slow (45 s) comparison of a file with its cache entry; delete on and off, one-shot and daemon, with and without a minimum age of 60 s, with a delete-delay of 10 min; a receiver that delivered an older version of the same name in an earlier run")
 }
 
 // c16Drained: everything the scans found was transmitted completely and polled to a verdict;
